@@ -98,6 +98,7 @@ func runC01(c *report.Ctx) {
 	ruleNoTxUnderUpdate(c, 8)
 	ruleReorgReachesNewTip(c)
 	ruleRollbackBeforeCursorMoves(c)
+	ruleRollbackHeightFollowsTheWalk(c)
 	ruleBlockRecordKeepsOrder(c)
 	ruleBestHeightReadWhileParked(c) // an import that reads the tip before the follower is parked scans to a stale tip and declares the wallet ready
 	ruleEveryRelevantOutputCredited(c)
